@@ -1,5 +1,3 @@
-//go:build verif && c10wip
-
 package props
 
 // C10 — Sandbox: read-your-writes, exact range scans, sound replayable read/write set.
@@ -1094,19 +1092,15 @@ func TestC10(t *testing.T) {
 		"one scan is consumed and closed before the next call (no writes while an iterator is open)")
 	defer c.Flush(t)
 
-	// witnesses of the known root causes on the tree under test
+	// witnesses of the known root causes on the tree under test (findings protocol)
+	fs := hx.LoadFindings()
 	noExclude := os.Getenv("C10_NO_EXCLUDE") == "1"
 	for _, id := range []string{c10FOwnDel, c10FReadMiss, c10FInverted} {
 		c10Exclude[id] = false
 	}
 	for _, w := range c10Witnesses() {
 		err := runC10Trace(w.tr, nil)
-		c.Count(w, false, "witness")
-		if err != nil {
-			t.Logf("HEAD-FAILURE: %s: %s", w.id, err)
-			if !c10Exclude[w.id] {
-				c.Label("head-failure:" + w.id)
-			}
+		if witnessVerdict(t, c, fs, w.id, err, w.tr) {
 			c10Exclude[w.id] = true
 		}
 	}
@@ -1115,6 +1109,8 @@ func TestC10(t *testing.T) {
 			c10Exclude[id] = false
 		}
 	}
+	resolveSharedFindings(fs, c)
+	regressFixed(t, c, fs, "C10")
 
 	prop := func(cs *hx.Case) {
 		rt := cs.RT()
